@@ -246,7 +246,16 @@ def c08_impl(case):
     objs = [S(1), S(2)]
     x = let(S, objs)
     with symbolic_mode():
-        queries = [an(entity(let(S, objs), x.a > 0)) for _ in range(4)]
+        # two of the four queries (the first and the third) take their variable's DOMAIN from another query: advancing
+        # their iterator advances a nested evaluation (one evaluate() running inside another)
+        queries = []
+        for j in range(4):
+            if j % 2 == 0:
+                inner = let(S, objs)
+                inner_q = an(entity(inner, inner.a > 0))
+                queries.append(an(entity(let(S, inner_q.evaluate()), x.a > 0)))     # a live result iterator as domain
+            else:
+                queries.append(an(entity(let(S, objs), x.a > 0)))
         ctxq = an(entity(x, x.a > 0))
     its = {}
     obs = []
@@ -338,7 +347,7 @@ def c08(report, rng, tier, findings):
     lines = run_driver([c08_sexp(c) for c in cases])
     report.rule = ("random well-bracketed histories (2-10 steps, thorough 16) of entering/leaving symbolic_mode / rule_mode blocks "
                    "(with and without a query) and `with query:` blocks - leaving normally or by raising - interleaved with creating, "
-                   "advancing, exhausting, closing and dropping (gc) result iterators at any point; executed with REAL with-statements; "
+                   "advancing, exhausting, closing and dropping (gc) result iterators (half of them over a query whose domain is supplied by another query: nested evaluation) at any point; executed with REAL with-statements; "
                    "after every step in_symbolic_mode(), in_symbolic_mode(Rule), type(Symbol(..)), whether `x == 1` raises and the "
                    "expression-stack length are compared with the model and the reference; non-trivial = the history has an iterator "
                    "operation inside a block or after the block it was created in")
@@ -378,13 +387,26 @@ def c08(report, rng, tier, findings):
 def c14_gen(rng, cid, tier):
     n_cls = rng.randint(1, 5)
     classes = []
+    def parents_of(x):
+        p = classes[x][1]
+        return [] if p is None else (list(p) if isinstance(p, tuple) else [p])
+
+    def is_anc(a, x):              # a is x or an ancestor of x
+        return a == x or any(is_anc(a, q) for q in parents_of(x))
     for c in range(n_cls):
         parent = rng.choice([None] + list(range(c))) if c > 0 else None
-        decorated = True if parent is None else rng.random() < 0.5
         style = rng.choice(('dataclass', 'dataclass', 'handwritten'))
+        if c >= 2 and rng.random() < 0.3:
+            # MULTIPLE inheritance (a diamond when the two parents share an ancestor): two parents none of which is an
+            # ancestor of the other
+            pairs = [(a, b) for a in range(c) for b in range(a + 1, c) if not is_anc(a, b) and not is_anc(b, a)]
+            if pairs:
+                parent = rng.choice(pairs)
+                style = 'dataclass'
+        decorated = True if parent is None else rng.random() < 0.5
         classes.append((c, parent, decorated, style))
     ops = []
-    n_ops = rng.randint(3, 10 if tier == 'quick' else 18)
+    n_ops = rng.randint(3, 14 if tier == 'quick' else 24)
     for _ in range(n_ops):
         r = rng.random()
         c = rng.randrange(n_cls)
@@ -402,11 +424,7 @@ def c14_gen(rng, cid, tier):
             #  subtree; whether instances created during the evaluation in ANOTHER class of the ranged-over subtree are
             #  visited is left open by the property: not generated)
             def in_subtree(x, root):
-                while x is not None:
-                    if x == root:
-                        return True
-                    x = classes[x][1]
-                return False
+                return is_anc(root, x)
             leaf = not any(in_subtree(x, c) for x in range(n_cls) if x != c)
             ts = [t for t in range(n_cls) if (t == c and leaf) or not in_subtree(c, t)]
             if ts:
@@ -420,7 +438,8 @@ def c14_gen(rng, cid, tier):
 
 
 def c14_sexp(case):
-    cl = tuple((c, '-' if p is None else p) for c, p, _, _ in case['classes'])
+    cl = tuple((c,) + (('-',) if p is None else tuple(p) if isinstance(p, (tuple, list)) else (p,))
+               for c, p, _, _ in case['classes'])
     ops = []
     for op in case['ops']:
         if op[0] == 'c':
@@ -443,17 +462,18 @@ def c14_impl(case):
     counter = {'inits': 0}
     built = {}
     for c, parent, decorated, style in case['classes']:
-        base = built[parent] if parent is not None else object
+        bases = (object,) if parent is None else tuple(built[q] for q in parent) if isinstance(parent, (tuple, list)) \
+            else (built[parent],)
         if style == 'handwritten':
-            def __init__(self, a=0, _base=base):
+            def __init__(self, a=0):
                 counter['inits'] += 1
                 self.a = a
-            cls = type(f'K{c}', (base,), {'__init__': __init__})
+            cls = type(f'K{c}', bases, {'__init__': __init__})
         else:
             def __post_init__(self):
                 counter['inits'] += 1
-            cls = dataclass(eq=False)(type(f'K{c}', (base,), {'__annotations__': {'a': int}, 'a': 0,
-                                                             '__post_init__': __post_init__}))
+            cls = dataclass(eq=False)(type(f'K{c}', bases, {'__annotations__': {'a': int}, 'a': 0,
+                                                           '__post_init__': __post_init__}))
         if decorated:
             cls = symbol(cls)
         built[c] = cls
@@ -525,8 +545,8 @@ def c14(report, rng, tier, findings):
     cases = [c14_gen(rng, f'r{i}', tier) for i in range(n)]
     impl_res = pmap(c14_impl, cases)
     lines = run_driver([c14_sexp(c) for c in cases])
-    report.rule = ("random hierarchies of 1-5 classes (decorated roots, decorated and undecorated subclasses, dataclasses and a "
-                   "hand-written __init__) and histories of 3-10 (thorough 18) operations: concrete construction by position / keyword / "
+    report.rule = ("random hierarchies of 1-5 classes (decorated roots, decorated and undecorated subclasses, single and MULTIPLE inheritance "
+                   "incl. diamonds, dataclasses and a hand-written __init__) and histories of 3-14 (thorough 24) operations: concrete construction by position / keyword / "
                    "default, symbolic construction, rule inference creating 0-2 instances, rule inference whose body ranges without a "
                    "domain over the registry of a class (also the class it creates instances of: one new instance per instance "
                    "constructed so far), registry clearing and no-domain queries "
@@ -621,8 +641,18 @@ def c07(report, rng, tier, findings):
     for i in range(n):
         cfg = gen.Cfg(n_vars=(1, 1), n_objs=(3, 8), depth=2, subclasses=0.3, empty_domain=0.0)
         case = gen.gen_case(rng, cfg, f'd{i}')
-        if rng.random() < 0.15:
+        r_c = rng.random()
+        if r_c < 0.15:
             case['cond'] = None                                  # condition-less query
+        elif r_c < 0.35:
+            # the condition that binds the variable is a two-argument predicate (function or class), the constant
+            # argument first / last / by keyword, alone or as the first operand of and_/or_
+            v0 = case['vars'][0][0]
+            lit, xa = ('lit', ('i', rng.randint(0, 3))), ('attr', 'a', ('var', v0))
+            p = (rng.choice(('pred', 'predc')), 'lt') + ((lit, xa) if rng.random() < 0.5 else (xa, lit))
+            extra = ('cmp', rng.choice(('ge', 'ne')), ('attr', 'b', ('var', v0)), ('lit', ('i', rng.randint(0, 2))))
+            case['cond'] = [rng.choice([p, ('and', p, extra), ('or', p, extra)])]
+            case['pred_kw'] = rng.random() < 0.5
         vid, cls, raw = case['vars'][0]
         all_objs = [('o', j) for j, _, _ in case['objs']]
         raw = rng.sample(all_objs, len(all_objs))                 # distinct objects, mixed types
@@ -634,7 +664,7 @@ def c07(report, rng, tier, findings):
     good = [(c, r) for c, r in zip(cases, impl_res) if 'spec_exc' not in r]
     lines = run_driver([sexp(('iter', c['id'], ('dom',) + tuple(v[1] for v in c['vars'][0][2]),
                               ('qual',) + tuple(r['qual']), ('hist',) + tuple(c['hist']))) for c, r in good])
-    report.rule = ("single-variable queries (random condition trees, also condition-less) whose domain is a logging ONE-SHOT "
+    report.rule = ("single-variable queries (random condition trees, also condition-less, 20% led by a two-argument predicate whose constant argument comes first, last or by keyword) whose domain is a logging ONE-SHOT "
                    "generator over 3-8 distinct objects of mixed classes; histories of 1-5 (thorough 8) evaluations, each creating "
                    "the iterator, taking 0/1/2/3 results (or all) and closing; compared with the model: pulls at creation (0), the "
                    "pull-log length at the delivery of EVERY result, after close, and the results themselves; non-trivial = the "
